@@ -280,6 +280,32 @@ var BareEnabled bool
 // Bare says whether the message of a token (and the reply to it) is sent without any metadata.
 func Bare(tok string) bool { return BareEnabled && hash("bare:"+tok)%8 == 0 }
 
+// EmptyReply says whether the handler answers the call of this token with the EMPTY value of its kind (zero-length
+// bytes, empty string, all-zero protobuf message): such a result is what the caller must see, whatever its receiver held.
+func EmptyReply(kind, tok string) bool {
+	if !BareEnabled || Bare(tok) {
+		return false
+	}
+	switch kind {
+	case "bytes", "plain", "pb":
+		return hash("er:"+tok)%16 == 0
+	}
+	return false
+}
+
+// IsEmpty reports whether a received value is the empty value of its kind.
+func IsEmpty(v interface{}) bool {
+	switch x := v.(type) {
+	case *[]byte:
+		return len(*x) == 0
+	case *string:
+		return *x == ""
+	case *pb.Payload:
+		return x.Seq == 0 && x.Mtype == 0 && x.ServiceMethod == "" && len(x.Status) == 0 && len(x.Meta) == 0 && x.BodyCodec == 0 && len(x.Body) == 0
+	}
+	return false
+}
+
 var ourKeys = []string{"Tok", "M1", "Ztail", "Dup", "Dn", "Rtok", "R1"}
 
 // DupMeta says whether the message of a token carries a repeated metadata key (two "Dup" pairs, announced by "Dn").
@@ -380,6 +406,16 @@ func handleCall(kind, route string, ctx erpc.CallCtx, arg interface{}) (interfac
 		ctx.SetMeta("R1", MetaVal(tok, 2))
 		if v := TailMeta("R:" + tok); v != "-" {
 			ctx.SetMeta("Ztail", v)
+		}
+	}
+	if EmptyReply(kind, tok) {
+		switch kind {
+		case "bytes":
+			return []byte{}, nil
+		case "plain":
+			return new(string), nil
+		case "pb":
+			return new(pb.Payload), nil
 		}
 	}
 	rp := ReplyPayload(tok)
